@@ -300,7 +300,8 @@ Lemma alloc_body_cases : forall env f c d m m', alloc_body env f c d m = Some m'
   let thr := epochs f * bpe f in
   let total := total_power thr (b_h env) vs in
   A <> 0 /\ has_chain c f = true /\
-  ((total = 0 /\ ((dtrunc_int A <= get (POOL, d) (bank m) /\ m' = m_zero_funded c d A m) \/ m' = m_zero_forfeit c d A m))
+  ((total = 0 /\ dtrunc_int A <= get (POOL, d) (bank m) /\
+    (negb (dtrunc_int A =? 0) && memz d (b_fail_fund env)) = false /\ m' = m_zero_funded c d A m)
    \/
    (total <> 0 /\ b_fail_tax env = false /\
     let vr := dmul_trunc A (dsub (dec_of_int 1) (b_tax env)) in
@@ -318,9 +319,9 @@ Proof.
   - apply Z.eqb_eq in Et. left; split; [exact Et|].
     destruct (negb (negb (dtrunc_int (get (c, d) (alloc m)) =? 0) && memz d (b_fail_fund env)) &&
               (dtrunc_int (get (c, d) (alloc m)) <=? get (POOL, d) (bank m))) eqn:Ef.
-    + apply andb_true_iff in Ef; destruct Ef as [_ Ef]; apply Z.leb_le in Ef.
-      left; split; [exact Ef | inversion H; reflexivity].
-    + right; inversion H; reflexivity.
+    + apply andb_true_iff in Ef; destruct Ef as [Ef0 Ef]; apply Z.leb_le in Ef. apply negb_true_iff in Ef0.
+      split; [exact Ef | split; [exact Ef0 | inversion H; reflexivity]].
+    + discriminate.
   - apply Z.eqb_neq in Et. right; split; [exact Et|].
     destruct (b_fail_tax env); [discriminate|]. split; [reflexivity|].
     match type of H with (if ?b then _ else _) = _ => destruct b eqn:Es; [discriminate|] end.
@@ -533,15 +534,10 @@ Lemma alloc_body_inv : forall env f c d m m', alloc_body env f c d m = Some m' -
   (exists new, log m' = log m ++ new /\ Forall (fun e => justified f env e /\ ev_c e = c /\ ev_d e = d) new).
 Proof.
   intros env f c d m m' H. apply alloc_body_cases in H. cbv zeta in H.
-  destruct H as (HA & Hch & [(Ht & [(Hle & Hm) | Hm]) | (Ht & Hft & evs & Hev & H1 & H2 & Hm)]); subst m'.
+  destruct H as (HA & Hch & [(Ht & Hle & _ & Hm) | (Ht & Hft & evs & Hev & H1 & H2 & Hm)]); subst m'.
   - split; [|split; [|split]].
     + intros Hp; apply pinv_zero_funded; [reflexivity | exact Hp].
     + intros _ _ Hn; apply ninv_zero_funded; [reflexivity | exact Hle | exact Hn].
-    + intros Hl; exact Hl.
-    + exists []; rewrite app_nil_r; split; [reflexivity | constructor].
-  - split; [|split; [|split]].
-    + intros Hp; apply pinv_zero_forfeit; exact Hp.
-    + intros _ _ Hn; apply ninv_zero_forfeit; [reflexivity | exact Hn].
     + intros Hl; exact Hl.
     + exists []; rewrite app_nil_r; split; [reflexivity | constructor].
   - set (A := get (c, d) (alloc m)) in *.
@@ -1359,10 +1355,8 @@ Lemma remainder_bound : forall env f c d m m',
     0 <= T /\ dec_of_int T <= get (c, d) (alloc m).
 Proof.
   intros env f c d m m' Hew Hcw Hn H. apply alloc_body_cases in H. cbv zeta in H.
-  destruct H as (HA & Hch & [(Ht & [(Hle & Hm) | Hm]) | (Ht & Hft & evs & Hev & H1 & H2 & Hm)]); subst m'.
+  destruct H as (HA & Hch & [(Ht & Hle & _ & Hm) | (Ht & Hft & evs & Hev & H1 & H2 & Hm)]); subst m'.
   - exists 0, []. unfold m_zero_funded; cbv zeta; cbn [log g_pv g_dust sum_amt length]. rewrite app_nil_r.
-    destruct Hn as [Hn _]. pose proof (Hn c d). unfold dec_of_int. repeat split; lia.
-  - exists 0, []. unfold m_zero_forfeit; cbv zeta; cbn [log g_pv g_dust sum_amt length]. rewrite app_nil_r.
     destruct Hn as [Hn _]. pose proof (Hn c d). unfold dec_of_int. repeat split; lia.
   - set (A := get (c, d) (alloc m)) in *.
     set (vr := dmul_trunc A (dsub (dec_of_int 1) (b_tax env))) in *.
@@ -1375,9 +1369,10 @@ Proof.
 Qed.
 
 Lemma alloc_body_mint : forall env f c d m m', alloc_body env f c d m = Some m' -> g_mint m' = g_mint m /\ g_cred m' = g_cred m.
+(* (the forfeited-credit ghost is handled by [alloc_body_forf] below) *)
 Proof.
   intros env f c d m m' H. apply alloc_body_cases in H. cbv zeta in H.
-  destruct H as (_ & _ & [(_ & [(_ & Hm) | Hm]) | (_ & _ & evs & _ & _ & _ & Hm)]); subst m'; split; reflexivity.
+  destruct H as (_ & _ & [(_ & _ & _ & Hm) | (_ & _ & evs & _ & _ & _ & Hm)]); subst m'; split; reflexivity.
 Qed.
 
 Lemma begin_block_mint : forall env f m, g_mint (begin_block env f m) = g_mint m /\ g_cred (begin_block env f m) = g_cred m.
@@ -1468,16 +1463,90 @@ Proof.
   destruct w_dust_values as (E1 & _ & E3 & E4 & _). cbv zeta in E1, E3, E4. rewrite E1, E3, E4 in H. vm_compute in H. discriminate.
 Qed.
 
+(* after the fix 2504227 the same history keeps the credit: nothing is paid, nothing is lost *)
 Lemma w_forfeit_values :
   let m := pm (prov (run_ops w_init w_forfeit_ops)) in
-  get (0, 0) (g_cred m) = 1000 * P /\ get (0, 0) (alloc m) = 0 /\ get (0, 0) (g_pv m) = 0 /\ get (0, 0) (g_pc m) = 0 /\
-  get (0, 0) (g_forf m) = 1000 * P /\ get (POOL, 0) (bank m) = 1000 /\ get (DISTR, 0) (bank m) = 0.
+  get (0, 0) (g_cred m) = 1000 * P /\ get (0, 0) (alloc m) = 1000 * P /\ get (0, 0) (g_pv m) = 0 /\ get (0, 0) (g_pc m) = 0 /\
+  get (0, 0) (g_forf m) = 0 /\ get (POOL, 0) (bank m) = 1000 /\ get (DISTR, 0) (bank m) = 0.
 Proof. vm_compute. repeat split; reflexivity. Qed.
 
-Lemma lossless_refuted_forfeit : ~ lossless_full.
+(* the pre-fix code on the same state: the credit disappears although the 1000 coins stay in the pool *)
+Definition w_forfeit_pre : money := pm (prov (run_ops w_init [PFund 0 1000; PCredit 0 0 (1000 * P)])).
+Lemma w_forfeit_prefix_values :
+  exists m', alloc_body_prefix (w_env 5 [0]) w_conf 0 0 w_forfeit_pre = Some m' /\
+    get (0, 0) (alloc w_forfeit_pre) = 1000 * P /\ get (0, 0) (alloc m') = 0 /\ get (0, 0) (g_forf m') = 1000 * P /\
+    get (POOL, 0) (bank m') = 1000 /\ cpool m' = cpool w_forfeit_pre /\ outst m' = outst w_forfeit_pre.
+Proof. eexists. split; [vm_compute; reflexivity|]. vm_compute. repeat split; reflexivity. Qed.
+
+(* ---- a failing community-pool funding changes nothing (fix 2504227) *)
+Lemma fund_failure_keeps_credit : forall env f c d m,
+  total_power (epochs f * bpe f) (b_h env) (lookup_list c (valsets f)) = 0 ->
+  let toSend := dtrunc_int (get (c, d) (alloc m)) in
+  (toSend <> 0 /\ memz d (b_fail_fund env) = true) \/ get (POOL, d) (bank m) < toSend ->
+  alloc_body env f c d m = None /\ alloc_one env f c m d = m.
 Proof.
-  intros H. specialize (H w_init w_forfeit_ops w_initial w_forfeit_wf 0 0). cbv zeta in H.
-  destruct w_forfeit_values as (E1 & E2 & E3 & E4 & _). cbv zeta in E1, E2, E3, E4. rewrite E1, E2, E3, E4 in H. vm_compute in H. discriminate.
+  intros env f c d m Ht toSend Hf.
+  assert (E : alloc_body env f c d m = None).
+  { unfold alloc_body. destruct (get (c, d) (alloc m) =? 0); [reflexivity|].
+    destruct (has_chain c f); cbn [negb]; [|reflexivity]. rewrite Ht. cbn [Z.eqb]. fold toSend.
+    destruct Hf as [[H1 H2]|H1].
+    - apply Z.eqb_neq in H1. rewrite H1, H2. reflexivity.
+    - apply Z.leb_gt in H1. rewrite H1, andb_false_r. reflexivity. }
+  split; [exact E | unfold alloc_one; rewrite E; reflexivity].
+Qed.
+
+(* no credit is ever dropped without a payment: the forfeit ghost stays empty *)
+Lemma alloc_body_forf : forall env f c d m m', alloc_body env f c d m = Some m' -> g_forf m' = g_forf m.
+Proof.
+  intros env f c d m m' H. apply alloc_body_cases in H. cbv zeta in H.
+  destruct H as (_ & _ & [(_ & _ & _ & Hm) | (_ & _ & evs & _ & _ & _ & Hm)]); subst m'; reflexivity.
+Qed.
+
+Lemma begin_block_forf : forall env f m, g_forf (begin_block env f m) = g_forf m.
+Proof.
+  intros env f m; unfold begin_block. destruct (1 <? b_h env); [|reflexivity].
+  assert (F : forall {X} (g : money -> X -> money) (l : list X),
+            (forall a x, g_forf (g a x) = g_forf a) -> forall a, g_forf (fold_left g l a) = g_forf a).
+  { intros X g l Hg; induction l as [|x r IH]; intros a; cbn [fold_left]; [reflexivity|]. rewrite IH; apply Hg. }
+  apply F. intros a i. unfold alloc_consumer. destruct (ci_client i); [|reflexivity].
+  apply F. intros b d. unfold alloc_one. destruct (alloc_body env f (ci_id i) d b) eqn:E; [|reflexivity].
+  eapply alloc_body_forf; exact E.
+Qed.
+
+Lemma step_forf : forall s o, g_forf (pm (prov (step s o))) = g_forf (pm (prov s)).
+Proof.
+  intros [[m f] ch] o. cbn [prov pm pf chains].
+  assert (R : forall ch0 memo d0 amt (ack tp : bool), g_forf (receive ch0 memo d0 amt ack tp f m) = g_forf m).
+  { intros. rewrite receive_cases. destruct (negb ack); [reflexivity|].
+    destruct (credited_consumer ch0 memo ack tp f); reflexivity. }
+  destruct o; cbn [step pstep prov pm pf chains]; try reflexivity.
+  all: try solve [apply R].
+  all: try solve [apply begin_block_forf].
+  all: try solve [match goal with |- context [change_denoms_ok ?a ?b ?c] => destruct (change_denoms_ok a b c) end; reflexivity].
+  all: try solve [match goal with |- context [set_commission_ok ?a ?b ?c ?e] => destruct (set_commission_ok a b c e) end; reflexivity].
+  destruct (nth_error ch (Z.to_nat k)) as [c|]; [|reflexivity].
+  destruct (c_inflight c) as [|[d0 a] q]; [reflexivity|]. destruct ack_ok; [apply R | reflexivity].
+Qed.
+
+Lemma no_forfeit : forall s0 ops, initial s0 -> forall c d,
+  let m := pm (prov (run_ops s0 ops)) in
+  get (c, d) (g_forf m) = 0 /\
+  get (c, d) (g_cred m) = get (c, d) (alloc m) + get (c, d) (g_pv m) + get (c, d) (g_pc m) + get (c, d) (g_dust m).
+Proof.
+  intros s0 ops Hi c d m.
+  assert (G : forall ops s, g_forf (pm (prov s)) = [] -> g_forf (pm (prov (run_ops s ops))) = []).
+  { induction ops0 as [|o r IH]; intros s E; cbn [run_ops fold_left]; [exact E|].
+    apply IH. rewrite step_forf. exact E. }
+  assert (F : g_forf m = []).
+  { apply G. destruct Hi as (E & _). rewrite E. reflexivity. }
+  assert (Z0 : get (c, d) (g_forf m) = 0) by (rewrite F; reflexivity).
+  split; [exact Z0|].
+  destruct (run_sinv ops s0 (initial_sinv s0 Hi)) as ((Ha & _) & _). fold m in Ha. specialize (Ha c d). lia.
+Qed.
+
+Lemma lossless_refuted : ~ lossless_full.
+Proof.
+  intros H. specialize (H w_init w_dust_ops w_initial w_dust_wf 0 0). cbv zeta in H. revert H. vm_compute. discriminate.
 Qed.
 
 Lemma lossless_refuted_dust : exists s0 ops c d, initial s0 /\ Forall wf_op ops /\
